@@ -111,6 +111,11 @@ def static_walk(identity, pdict, fields, out):
 def judge_static(case, out):
     fields, std, msm, igs = R.tables()
     identity, tbl = case["id"], case["table"]
+    if case.get("badkey"):
+        out.bad("definition-unreachable",
+                f"table {tbl} has the key {identity} which is not a string: identities are strings, so "
+                f"this definition can never be selected")
+        return
     pdict = {"std": std, "msm": msm, "igs": igs}[tbl].get(identity)
     if pdict is None:
         if identity in pinned.IMPLEMENTED:
@@ -550,6 +555,11 @@ def judge(case):
 # ---------------------------------------------------------------------------
 def cases(tier):
     out = []
+    _f, std, msm, igs = R.tables()
+    for tbl, table in (("std", std), ("msm", msm), ("igs", igs)):
+        for key in table:
+            if not isinstance(key, str):
+                out.append({"kind": "static", "id": repr(key), "table": tbl, "badkey": True})
     for identity, tbl in R.all_identities():
         out.append({"kind": "static", "id": identity, "table": tbl})
     for identity in pinned.IMPLEMENTED:
